@@ -13,10 +13,13 @@ rm -f "$COV"/prof/*.profraw
 sed -e "s|@VERIF@|/verif|g" -e "s|@REPO@|/repo|g" harness/Cargo.toml.in > "$COV/harness/Cargo.toml"
 cp -n /repo/Cargo.lock "$COV/harness/Cargo.lock" 2>/dev/null
 export CARGO_NET_OFFLINE=true
+# build scripts and proc macros are instrumented too: keep their profiles out of the package directories
+export LLVM_PROFILE_FILE="$COV/prof/build-%p.profraw"
 echo "building instrumented harness and CLI ..."
 RUSTFLAGS="-Cinstrument-coverage" cargo +nightly build --offline -q --manifest-path "$COV/harness/Cargo.toml" --target-dir "$COV/harness-target" || exit 2
 RUSTFLAGS="-Cinstrument-coverage --cfg typeshare_verif" cargo +nightly build --offline -q --release -p typeshare-cli --features go,python \
     --manifest-path /repo/Cargo.toml --target-dir "$COV/cli-target" || exit 2
+rm -f "$COV"/prof/build-*.profraw
 TSV="$COV/harness-target/debug/tsv"
 CLI="$COV/cli-target/release/typeshare"
 checks=("$@"); [ ${#checks[@]} -eq 0 ] && checks=(C01 C02 C03 C04 C05 C06 C07 C08 C09 C10 C11 C12 C13 C14 C15 C16 C17 C18 C19 C20)
